@@ -40,6 +40,20 @@ template <class X> void one(Ctx& c, UriBox<X>& b, const Str& origin) {
         c.count("very_long_texts");
     }
     if (c.rng.chance(1, 16)) { caps.push_back(INT_MIN); caps.push_back((long)L + 1000); }
+    // a stated capacity far above the need ("no limit"): the block really has that size (address space only)
+    if (c.rng.chance(1, 8)) if (Char* big = (Char*)reserve_block((size_t)INT_MAX * sizeof(Char))) {
+        static const int BIG[] = {INT_MAX, INT_MAX - 1, INT_MAX / 2, INT_MAX / 4 + 1, INT_MAX / 4, INT_MAX / 8 + 1, 1 << 24, 65536};
+        for (int cap : BIG) for (int variant = 0; variant < 2; variant++) {
+            if ((long)cap < (long)L + 1) continue;
+            int written = -99; int* wp = variant ? &written : nullptr; big[0] = (Char)'#'; big[L] = (Char)'#';
+            { LibScope ls; rc = X::ToString(big, &b.u, cap, wp); }
+            c.evaluations++; c.count("capacity_far_above_need");
+            Str ctx = fmt("%s text=\"%s\" len=%zu capacity=%d", origin.c_str(), esc(text).c_str(), L, cap);
+            if (rc != URI_SUCCESS) { c.violation("C05", fmt("tostring/%s/sufficient-capacity-refused", X::tag()), ctx + fmt(" rc=%d", rc)); continue; }
+            if (wp && written != (int)L + 1) c.violation("C05", fmt("tostring/%s/chars-written-wrong", X::tag()), ctx + fmt(" charsWritten=%d", written));
+            if (narrow<X>(big, big + L) != text || big[L] != 0) c.violation("C05", fmt("tostring/%s/text-or-terminator-wrong", X::tag()), ctx);
+        }
+    }
     OutBuf ob;
     for (long cap : caps) {
         for (int variant = 0; variant < 2; variant++) {        // charsWritten NULL / non-NULL
